@@ -75,7 +75,9 @@
        (not (= (tasks.mesg r) (bsome json.null)))
        (not (is-inone (tasks.timeout r))) (not (is-inone (tasks.counter r))) (not (is-inone (tasks.attempt r)))
        (not (is-inone (tasks.ttl r))) (not (is-inone (tasks.expires_at r)))
-       (>= (ival (tasks.counter r)) 1)))
+       (>= (ival (tasks.counter r)) 1)
+       ; an unfinished task has no completion time
+       (=> (or (= (tasks.state r) (isome 1)) (= (tasks.state r) (isome 2)) (= (tasks.state r) (isome 4))) (is-inone (tasks.completed_on r)))))
 (define-fun t.identity.eq ((a Row.tasks) (b Row.tasks)) Bool
   (and (= (tasks.id a) (tasks.id b)) (= (tasks.sort_id a) (tasks.sort_id b)) (= (tasks.root_promise_id a) (tasks.root_promise_id b))
        (= (tasks.recv a) (tasks.recv b)) (= (tasks.mesg a) (tasks.mesg b)) (= (tasks.timeout a) (tasks.timeout b))
